@@ -54,11 +54,12 @@ type installCase struct {
 	Archive   ArchiveSpec `json:"archive"`
 	RootName  string      `json:"root_name,omitempty"`
 	RootData  []byte      `json:"root_data,omitempty"`
-	Digest    string      `json:"digest"`     // right | upper | prefixed | bogus | malformed | short | empty | traversal | traversal-prefixed
-	Size      string      `json:"size"`       // exact | small | large | zero
-	SizeDelta int         `json:"size_delta"` // for small/large
-	Bundles   string      `json:"bundles"`    // none | sig | sig+vprov | sig+aprov | missing | big
-	PreTarget bool        `json:"pre_target"` // install directory exists beforehand
+	Digest    string      `json:"digest"`                 // right | upper | prefixed | bogus | malformed | short | empty | traversal | traversal-prefixed
+	Size      string      `json:"size"`                   // exact | small | large | zero
+	SizeDelta int         `json:"size_delta"`             // for small/large
+	Bundles   string      `json:"bundles"`                // none | sig | sig+vprov | sig+aprov | missing | big
+	PreTarget bool        `json:"pre_target"`             // install directory exists beforehand
+	IndexDmg  string      `json:"index_damage,omitempty"` // "" | json-truncated | json-garbage: the index file itself is damaged
 	Ops       []installOp `json:"ops"`
 }
 
@@ -367,6 +368,10 @@ func runInstall(c installCase) (facts []opFacts, out []verdict) {
 	a := buildArchive(c.Archive, base)
 	indexPath := filepath.Join(base, "in", "index.json")
 	writeIndexFile(indexPath, c, a, "http://artifacts.invalid/widget.tar.gz")
+	if c.IndexDmg != "" {
+		good, _ := os.ReadFile(indexPath)
+		mustWrite(indexPath, damageJSON(good, c.IndexDmg), 0o644)
+	}
 
 	artifactRel := filepath.Join(targetRel, finalArtifactName(c.Kind))
 	artifactPath := filepath.Join(base, artifactRel)
@@ -487,7 +492,7 @@ func runInstall(c installCase) (facts []opFacts, out []verdict) {
 		// (c) refusal: coded, nothing new left behind, nothing old disturbed
 		if err != nil {
 			if !isCoded(err) {
-				bad(kInsUncoded, fmt.Sprintf("uncoded error %v", err))
+				bad(uncodedKey(kInsUncoded, err), fmt.Sprintf("uncoded error %v", err))
 			}
 			if (present && !presentBefore) || (entryAfter && !entryBefore) {
 				bad(kInsErrLeft, fmt.Sprintf("refused (%s) but artifact=%v manifest-entry=%v remain", codeOf(err), present, entryAfter))
@@ -546,7 +551,7 @@ func runInstall(c installCase) (facts []opFacts, out []verdict) {
 			bad(kInsStaging, fmt.Sprintf("%d entries left under .registry/staging (first %q)", len(ents), ents[0].Name()))
 		}
 		// (f) vacuity guard: every gate open on a well-formed connector archive installs
-		if c.Kind == "connector" && c.Archive.Well && !op.DryRun && !entryBefore && of.FetchPass && of.DigestPass && !op.AllowUnsigned && op.Verifier == "accept" &&
+		if c.Kind == "connector" && c.IndexDmg == "" && c.Archive.Well && !op.DryRun && !entryBefore && of.FetchPass && of.DigestPass && !op.AllowUnsigned && op.Verifier == "accept" &&
 			(c.Bundles == "none" || c.Bundles == "sig" || c.Bundles == "sig+vprov" || c.Bundles == "sig+aprov") && (op.Pin == "" || op.Pin == "1.0.0" || op.Pin == "v1.0.0") && err != nil {
 			bad(kInsGoodRefused, fmt.Sprintf("all gates open but refused: %v", err))
 		}
@@ -593,6 +598,11 @@ func genInstallCase(t *rapid.T, st *pbt.Stats) installCase {
 	c.SizeDelta = rapid.IntRange(0, 2000).Draw(t, "sizedelta")
 	c.Bundles = pick(t, "bundles", "none", 6, "sig", 3, "sig+vprov", 2, "sig+aprov", 2, "missing", 1, "big", 1)
 	c.PreTarget = rapid.IntRange(0, 3).Draw(t, "pretarget") != 0
+	c.IndexDmg = pick(t, "indexdamage", "", 28, "json-truncated", 1, "json-garbage", 1)
+	if c.IndexDmg != "" && st.IsKnown(kUncodedIndexSyntax) {
+		st.Exclude(kUncodedIndexSyntax)
+		c.IndexDmg = ""
+	}
 	n := pick2int(t, "nops", 1, 6, 2, 3, 3, 1)
 	for i := 0; i < n; i++ {
 		c.Ops = append(c.Ops, genInstallOp(t, i))
@@ -607,6 +617,9 @@ func genInstallCase(t *rapid.T, st *pbt.Stats) installCase {
 
 func installClasses(c installCase, facts []opFacts) (cls []string, nontrivial bool) {
 	cls = append(cls, "kind:"+c.Kind, "digest:"+c.Digest, "size:"+c.Size, "bundles:"+c.Bundles)
+	if c.IndexDmg != "" {
+		cls = append(cls, "index-file:"+c.IndexDmg)
+	}
 	_, hostile := archiveClasses(c.Archive)
 	if hostile {
 		cls = append(cls, "archive:hostile")
